@@ -424,7 +424,7 @@ PROPS = {
         partial=["'on an otherwise idle agent the rewrite does happen' is observed with a 400 ms wait (scheduling), not proved"],
     ),
     "C13": dict(
-        modules=["Whawty.Props.C13", "Whawty.Props.GenCodec", "Whawty.Props.GenScan", "Whawty.Props.GenCodecFn"],
+        modules=["Whawty.Props.C13", "Whawty.Props.GenCodec", "Whawty.Props.GenScan", "Whawty.Props.GenCodecFn", "Whawty.Props.GenCodecRoundTrip"],
         level_text="Wire format, round trip, over-limit refusal, re-encode = consumed prefix, fragment "
                    "independence of the bufio.Scanner loop and PAM/Go encoder agreement are Lean theorems for all "
                    "byte strings and all fragmentations a reader that makes progress produces (induction over the scanner "
